@@ -96,6 +96,15 @@ func (s *FuzzServiceStub) ImportBlock(block types.Block) (types.StateRoot, error
 		}
 	}
 
+	// Remember the head this import builds on, to roll back to it if the block is invalid.
+	var headBefore types.HeaderHash
+	haveHeadBefore := false
+	if len(cs.GetBlocks()) > 0 {
+		if h, herr := hash.ComputeBlockHeaderHash(cs.GetLatestBlock().Header); herr == nil {
+			headBefore, haveHeadBefore = h, true
+		}
+	}
+
 	cs.AddBlock(block)
 	logger.Infof("%s Block 0x%x... added for ImportBlock", ctx, headerHash[:8])
 
@@ -113,6 +122,16 @@ func (s *FuzzServiceStub) ImportBlock(block types.Block) (types.StateRoot, error
 		// The returned state root is discarded by the server (it replies with
 		// an ErrorMessage), so there is no need to compute the prior root here.
 		logger.Errorf("%s [PROTOCOL] block invalid: %v", ctx, err)
+		// Roll the in-memory chain back to the head the block was tried on: the rejected
+		// block must not stay the "latest block", and whatever the failed STF wrote through
+		// the prior/posterior state must not survive, so that later imports behave as if
+		// the block had never been seen.
+		if haveHeadBefore {
+			if restoreErr := cs.RestoreBlockAndState(headBefore); restoreErr != nil {
+				logger.Errorf("%s failed to roll back after invalid block: %v", ctx, restoreErr)
+			}
+		}
+		cs.GetPosteriorStates().SetState(blockchain.NewPosteriorStates().GetState())
 		return types.StateRoot{}, err
 	}
 
